@@ -197,7 +197,7 @@ static std::vector<SegG> gen_segs(Rng& r, size_t n, size_t cap) {
         case 0: v.push_back(v[r.below((u32)base)]); break;
         case 1: { i64 o = r.below((u32)n); u32 l = 1 + r.below((u32)std::min<size_t>(n - o, 3 * mss)); v.push_back({o, l}); break; }
         case 2: { SegG g = v[r.below((u32)base)]; g.len = 1 + r.below((u32)(n - g.off)); if (g.len > 4000) g.len = 4000; v.push_back(g); break; }
-        case 3: { i64 o = -(i64)(1 + r.below(3000)); u32 l = 1 + r.below(4000); if (o + (i64)l > (i64)n) l = (u32)(n - o); v.push_back({o, l}); break; }
+        case 3: { i64 o = -(i64)(1 + r.below(3000)); u32 l = 1 + r.below((u32)(-o) + (u32)std::min<size_t>(n, r.chance(1, 8) ? 4000 : 200)); v.push_back({o, l}); break; }   // stale, mostly reaching only a little into the stream
         case 4: v.push_back({(i64)r.below((u32)n + 1), 0}); break;
         case 5: { size_t a = r.below((u32)base), b = std::min(base - 1, a + 1 + r.below(4)); v.push_back({v[a].off, (u32)(v[b].off + v[b].len - v[a].off)}); break; }
         default: { i64 o = r.below((u32)n); v.push_back({o, 1 + r.below((u32)std::min<size_t>(n - o, 20))}); }
@@ -237,7 +237,7 @@ struct Gen {
                     case 5: s.port = (u16)(s.port + (r.chance(1, 2) ? 1 : 0xffff)); cnt("tuple:server-port+-1"); break;
                     case 6: std::swap(c.port, s.port); cnt("tuple:ports-swapped-between-hosts"); break;
                     case 7: { Ep t = c; c = s; s = t; std::swap(c.port, s.port); cnt("tuple:roles-swapped-same-ports"); break; }
-                    case 8: if (c.v6 || !r.chance(1, 3)) continue; { int h = r.below(3); c = embed(c, h); s = embed(s, h); cnt(h == 2 ? "tuple:v4-embedded-leading" : h == 1 ? "tuple:v4-compatible" : "tuple:v4-mapped"); } break;
+                    case 8: if (c.v6 || !r.chance(1, 3)) continue; { int h = r.below(3); if (h == 2 && r.chance(1, 2)) h = r.below(2); c = embed(c, h); s = embed(s, h); cnt(h == 2 ? "tuple:v4-embedded-leading" : h == 1 ? "tuple:v4-compatible" : "tuple:v4-mapped"); } break;
                     case 9: memcpy(s.a, c.a, 16); if (s.port == c.port) s.port = (u16)(c.port + 1); cnt("tuple:same-address-both-sides"); break;
                     case 10: { int i = c.v6 ? 15 : 3; c.a[i] = (u8)(c.a[i] + 1); cnt("tuple:neighbour-address"); break; }
                     default: { Ep t = c; c = s; s = t; c.port = (u16)(c.port ^ 1); cnt("tuple:reversed-one-port-bit"); }
